@@ -49,6 +49,17 @@ package providers
 //@     && (forall g string :: inmap(p.AllowedGroups, g) <==> exists j int :: 0 <= j && j <= rangeindex && groups[j] == g)
 //@ ensures[exactly-the-configured-groups] forall g string :: inmap(p.AllowedGroups, g) <==> exists j int :: 0 <= j && j < len(groups) && groups[j] == g
 
+// provider-specific group options (gitlab-group, keycloak-group, google-group) are ADDED to the allowed set
+//@ func (*ProviderData).addAllowedGroups
+//@ safety
+//@ prop C08
+//@ loop 0 invariant[groups-kept-new-ones-so-far-added] rangeindex >= -1 && rangeindex < len(groups) && p.AllowedGroups != nil
+//@     && (old(p.AllowedGroups) != nil ==> p.AllowedGroups == old(p.AllowedGroups))
+//@     && (forall g string :: old(inmap(p.AllowedGroups, g)) ==> inmap(p.AllowedGroups, g))
+//@     && (forall j int :: 0 <= j && j <= rangeindex ==> inmap(p.AllowedGroups, groups[j]))
+//@ ensures[earlier-allowed-groups-stay-allowed] forall g string :: old(inmap(p.AllowedGroups, g)) ==> inmap(p.AllowedGroups, g)
+//@ ensures[every-given-group-is-allowed] forall j int :: 0 <= j && j < len(groups) ==> inmap(p.AllowedGroups, groups[j])
+
 //@ func NewKeycloakOIDCProvider
 //@ safety
 //@ prop C08 C19
@@ -339,3 +350,26 @@ package providers
 //@     && ret1 != nil
 //@ ensures[session-only-after-its-tokens-were-checked] ret1 == nil ==> called(extractClaimsIntoSession) && ret(extractClaimsIntoSession) == nil
 //@     && arg(extractClaimsIntoSession, 2) == ret0
+
+// ------------------------------------------------------------------ `stable ProviderData.*`: written only while a provider is being constructed
+// The fields callers keep across unknown calls are assigned by newProviderDataFromConfig (the object it allocates) and by the
+// three construction-time setters below; those setters are called from constructors only (New*Provider, NewProvider's
+// newProviderDataFromConfig) — request handling never reaches them.
+//@ prop C04 C05 C08 C14 C19
+//@ scan[stable:provider-data-written-by-construction-only] field-writers ProviderData.AllowedGroups providers.newProviderDataFromConfig providers.(*ProviderData).setAllowedGroups providers.(*ProviderData).addAllowedGroups providers.(*KeycloakOIDCProvider).addAllowedRoles
+//@ scan[stable:provider-claims-written-by-construction-only] field-writers ProviderData.EmailClaim providers.newProviderDataFromConfig providers.(*ProviderData).setProviderDefaults providers.NewNextcloudProvider
+//@ scan[stable:provider-user-claim-written-by-construction-only] field-writers ProviderData.UserClaim providers.newProviderDataFromConfig providers.(*ProviderData).setProviderDefaults
+//@ scan[stable:provider-login-url-written-by-construction-only] field-writers ProviderData.LoginURL providers.newProviderDataFromConfig providers.(*ProviderData).setProviderDefaults
+//@ scan[stable:provider-redeem-url-written-by-construction-only] field-writers ProviderData.RedeemURL providers.newProviderDataFromConfig providers.(*ProviderData).setProviderDefaults
+//@ scan[stable:provider-profile-url-written-by-construction-only] field-writers ProviderData.ProfileURL providers.newProviderDataFromConfig providers.(*ProviderData).setProviderDefaults
+//@ scan[stable:defaults-set-by-constructors-only] callers (*ProviderData).setProviderDefaults providers.New*
+//@ scan[stable:allowed-groups-set-at-construction-only] callers (*ProviderData).setAllowedGroups providers.newProviderDataFromConfig
+//@ scan[stable:allowed-roles-added-at-construction-only] callers (*KeycloakOIDCProvider).addAllowedRoles providers.NewKeycloakOIDCProvider
+// C08: the groups configured with allowed_groups are put into the set once (setAllowedGroups, called by newProviderDataFromConfig
+// only: contract exactly-the-configured-groups); every other writer of the set only ADDS entries (contracts
+// earlier-allowed-groups-stay-allowed of addAllowedGroups / addAllowedRoles; GitLab's setAllowedProjects inserts project entries
+// into the set, and an insertion removes nothing), and nothing else touches the map's entries
+//@ prop C08
+//@ scan[provider-group-options-are-added-by-constructors-only] callers (*ProviderData).addAllowedGroups providers.NewGitLabProvider providers.NewKeycloakProvider providers.NewGoogleProvider
+//@ scan[allowed-group-entries-written-by-the-setters-only] slice-field-frozen ProviderData.AllowedGroups providers.(*ProviderData).setAllowedGroups providers.(*ProviderData).addAllowedGroups providers.(*KeycloakOIDCProvider).addAllowedRoles providers.(*GitLabProvider).setAllowedProjects
+
